@@ -113,6 +113,9 @@ pub fn run(ctx: &mut Ctx) {
     short_stream(ctx, &cfg, if quick { 4 } else { 100 });
     let n = ctx.n(900_000, 12_000_000);
     grammar_stream(ctx, &cfg, n, 6);
+    let nr = ctx.n(4_000, 80_000);
+    realistic_stream(ctx, &cfg, nr, 6);
+    ctx.require("stream:realistic", 1_000);
     skeleton_stream(ctx, &cfg, if quick { 3 } else { 5 });
     let nd = ctx.n(24_000, 300_000);
     declared_sweep(ctx, nd);
